@@ -332,6 +332,20 @@ def jobs(tier):
                 out.append(('cov', 'case_cov', dict(
                     kind=kind, n_dim=n_dim, n_cov=1, n_ids=2, selection=s,
                     sample=False), {}))
+    # repeated pairs that are separated by another pair of the same
+    # dimension / parameter (de-duplication must not rely on adjacency)
+    sep = [[[0, 0], [1, 0], [0, 0]], [[0, 1], [1, 1], [0, 1], [0, 0]],
+           [[1, 0], [0, 0], [1, 1], [1, 0]], [[1, 1], [0, 1], [1, 1]]]
+    for kind in ('gaussian', 'lognormal_nc'):
+        for s_ in sep:
+            nd = 1 + max(d for _, d in s_)
+            out.append(('cov', 'case_cov', dict(
+                kind=kind, n_dim=nd, n_cov=2, n_ids=2, selection=s_,
+                sample=False), {}))
+    for s_ in sep:
+        out.append(('linear', 'case_linear', dict(
+            P=2, n_dim=1 + max(d for _, d in s_), n_cov=2, n_ids=2,
+            selection=s_), {}))
     for P, n_dim in ((2, 1), (2, 2), (1, 2)):
         sels = selections(P, n_dim, 2 if q else 3)
         if not q and len(sels) > 90:
@@ -347,7 +361,8 @@ BOUNDS = dict(
     quick='6 underlying models, n_dim 1..2, n_cov 1..2, 2 individuals, '
           'default selection; ~8 selections per (model, n_dim) out of all '
           'ordered lists of 1..2 index pairs; LinearCovariateModel alone on '
-          'all ordered lists of 1..2 pairs',
+          'all ordered lists of 1..2 pairs; 4 selections with separated '
+          'duplicates',
     thorough='n_dim 1..3, n_cov 1..3, 1..3 individuals; selections from all ordered lists of 1..3 '
              'pairs (<= 60 per model and dimension, evenly spaced)',
     outside='heterogeneous underlying model; more than 2 covariates / '
